@@ -336,3 +336,97 @@ func ClosedValue(p *core.Program, name string) (Val, error) {
 	v, _, err := evalVarInitDepth(p, name, 0)
 	return v, err
 }
+
+// ColumnValues: v reads a place inside a package-level table whose initialiser is
+// closed — `table[i].field`, `table[i].list[j]` — with constant or variable indices;
+// returns every value the read can yield (all rows for a variable index).
+func ColumnValues(p *core.Program, v ssa.Value) ([]Val, bool) {
+	type step struct {
+		kind  byte // 'i' index, 'f' field
+		idx   int
+		known bool
+	}
+	var steps []step
+	cur := v
+	var root *ssa.Global
+	for d := 0; d < 12 && root == nil; d++ {
+		switch x := cur.(type) {
+		case *ssa.UnOp:
+			if x.Op != token.MUL {
+				return nil, false
+			}
+			cur = x.X
+		case *ssa.IndexAddr:
+			k, ok := ssaConstInt(x.Index)
+			steps = append(steps, step{'i', int(k), ok})
+			cur = x.X
+		case *ssa.Index:
+			k, ok := ssaConstInt(x.Index)
+			steps = append(steps, step{'i', int(k), ok})
+			cur = x.X
+		case *ssa.FieldAddr:
+			steps = append(steps, step{'f', x.Field, true})
+			cur = x.X
+		case *ssa.Field:
+			steps = append(steps, step{'f', x.Field, true})
+			cur = x.X
+		case *ssa.Slice:
+			if x.Low != nil || x.High != nil {
+				return nil, false
+			}
+			cur = x.X
+		case *ssa.ChangeType:
+			cur = x.X
+		case *ssa.Global:
+			root = x
+		default:
+			return nil, false
+		}
+	}
+	if root == nil || len(steps) == 0 {
+		return nil, false
+	}
+	val, err := ClosedValue(p, root.Name())
+	if err != nil {
+		return nil, false
+	}
+	vals := []Val{val}
+	for i := len(steps) - 1; i >= 0; i-- {
+		st := steps[i]
+		var next []Val
+		for _, c := range vals {
+			switch x := c.(type) {
+			case *Slice:
+				if st.kind != 'i' || x == nil {
+					return nil, false
+				}
+				if st.known {
+					if st.idx < 0 || st.idx >= len(x.Elems) {
+						return nil, false
+					}
+					next = append(next, x.Elems[st.idx])
+				} else {
+					next = append(next, x.Elems...)
+				}
+			case *Struct:
+				if st.kind != 'f' || x == nil || st.idx >= len(x.F) {
+					return nil, false
+				}
+				next = append(next, x.F[st.idx])
+			default:
+				return nil, false
+			}
+		}
+		vals = next
+	}
+	return vals, true
+}
+
+func ssaConstInt(v ssa.Value) (int64, bool) {
+	c, ok := v.(*ssa.Const)
+	if !ok || c.Value == nil || c.Value.Kind() != constant.Int {
+		return 0, false
+	}
+	k, ok := constant.Int64Val(c.Value)
+	return k, ok
+}
